@@ -41,3 +41,6 @@ PROP = dict(
              "authenticator `vfake`",
              "Model/Files.lean is a hand transcription tied to the code by the differential run only"],
 )
+
+from ..pin import add_pin
+PROP = add_pin(PROP)
